@@ -985,6 +985,9 @@ func (j *c05Judge) run(recv c05Recv, calls []c05Call) {
 			ctx.Tag("bridge:some-non-integer")
 		}
 	}
+	if j.allSteps && ctx.R.Intn(3) == 0 {
+		c05d05With(ctx, recv, calls) // the same case through RefineWith / RefineNotNull
+	}
 	ctx.Tag("recv:" + recv.tag + ":" + tk)
 	if panicAt >= 0 {
 		ctx.Tag("outcome:panic")
